@@ -6,8 +6,9 @@ import copy
 PROP = 'C12'
 LEVEL = 'exploration'
 RULE = ('random histories over 1-3 level hierarchies whose parameters vary in instantiate / per_instance / constant and '
-        'have mutable defaults (lists, dicts, tuples wrapping mutables) and mutable Parameter attributes (Selector objects, '
-        'bounds): create instance (with/without kwargs), touch inst.param[p] (creates the per-instance copy), instance set, '
+        'have mutable defaults (lists, dicts, tuples wrapping mutables) and mutable Parameter attributes (Selector objects incl. '
+        'selectors declared empty that grow on assignment, bounds), instances optionally falsy (__len__/__bool__): create instance '
+        '(with/without kwargs), touch inst.param[p] (creates the per-instance copy), instance set by attribute or inst.param.update, '
         'class set on declaring class / subclass, in-place mutation of values, instance- and class-level Parameter-attribute '
         'assignment and in-place mutation. After every step every class and instance view is compared by identity with an '
         'ownership model (class default with copy-on-write per subclass; instance own value if set / instantiated / constant '
@@ -22,7 +23,8 @@ ASSUMPTIONS = [
     'class-level metadata changes reaching (or not) already copied per-instance Parameters is not judged (statement is silent)',
     'parameters declared per_instance=False are exempt from the metadata-isolation clause (they opted out)',
 ]
-REQUIRED = {'view_checks': 20000, 'instances': 1000, 'class_sets': 500, 'metadata_edits': 500, 'inplace_mutations': 500}
+REQUIRED = {'view_checks': 20000, 'instances': 1000, 'class_sets': 500, 'metadata_edits': 500, 'inplace_mutations': 500, 'instance_updates': 200,
+            'falsy_instance_cases': 100}
 
 _st = {}
 _n = [0]
@@ -86,13 +88,15 @@ def fresh_value(kind):
         return (t % 9) + 0.25
     if kind == 'sel':
         return None
+    if kind == 'esel':
+        return ('e', t)
     if kind == 'gen':
         # either another generator or a plain number (a Dynamic parameter accepts both)
         return Gen() if t % 2 else float(t) + 0.125
     return ('tok', t)
 
 
-TEMPLATES = ['plist', 'pdict', 'ptuple', 'num', 'sel', 'const', 'shared', 'lst', 'dyn', 'dyn']
+TEMPLATES = ['plist', 'pdict', 'ptuple', 'num', 'sel', 'esel', 'const', 'shared', 'lst', 'dyn', 'dyn']
 
 
 def make_param(param, tname, rng):
@@ -114,6 +118,9 @@ def make_param(param, tname, rng):
     if tname == 'sel':
         objs = [('o', tokn()) for _ in range(3)]
         return param.Selector(objects=objs, default=objs[0]), dict(kind='sel', instantiate=False, objs=objs)
+    if tname == 'esel':
+        # declared without objects: assignments are not checked and grow the objects list of the Parameter they go through
+        return (param.Selector(objects=[], check_on_set=False) if rng.random() < 0.5 else param.Selector()), dict(kind='esel', instantiate=False)
     if tname == 'const':
         k = rng.choice(['list', 'tok'])
         return param.Parameter(default=fresh_value(k), constant=True), dict(kind=k, instantiate=False, constant=True)
@@ -122,7 +129,7 @@ def make_param(param, tname, rng):
     raise ValueError(tname)
 
 
-META = {'gen': ['step', 'doc'], 'num': ['bounds', 'step', 'doc', 'label'], 'sel': ['objects', 'doc'], 'list': ['doc', 'label', 'precedence'],
+META = {'esel': ['objects', 'doc'], 'gen': ['step', 'doc'], 'num': ['bounds', 'step', 'doc', 'label'], 'sel': ['objects', 'doc'], 'list': ['doc', 'label', 'precedence'],
         'dict': ['doc'], 'tuple': ['doc', 'precedence'], 'tok': ['doc']}
 
 
@@ -135,8 +142,15 @@ def run_case(idx, rng, P, rep):
     classes = []
     base = param.Parameterized
     own_default = {}        # (class index, pname) -> object : the class has its own entry (declares or copy-on-write)
+    falsy = rng.random() < 0.35
     for d in range(depth):
         ns = {}
+        if d == 0 and falsy:
+            # instances that evaluate to False (an empty container-like object) are still instances
+            if rng.random() < 0.5:
+                ns['__len__'] = lambda self: 0
+            else:
+                ns['__bool__'] = lambda self: False
         for n in names:
             if d == 0 or rng.random() < 0.25:
                 pobj, sp = make_param(param, n, rng)
@@ -148,7 +162,7 @@ def run_case(idx, rng, P, rep):
                         kw['constant'] = True
                     if first.get('per_instance') is False:
                         continue
-                    if n == 'sel':
+                    if n in ('sel', 'esel'):
                         continue
                     if first['kind'] == 'gen':
                         pobj = param.Number(default=Gen())
@@ -165,7 +179,7 @@ def run_case(idx, rng, P, rep):
     kinds = []
     trace = []
     flags = dict(copy_made=False, inst_exists=False, nontrivial=False)
-    desc = dict(depth=depth, params={n: {k: v for k, v in specs[n].items() if k != 'objs'} for n in names})
+    desc = dict(depth=depth, falsy_instances=falsy, params={n: {k: v for k, v in specs[n].items() if k != 'objs'} for n in names})
 
     def viol(key, msg):
         rep.violation(f'C12/{key}', msg, case=dict(desc, ops=kinds), trace=trace[-30:])
@@ -240,6 +254,8 @@ def run_case(idx, rng, P, rep):
                 sp = specs[p]
                 if sp['kind'] == 'sel':
                     kw[p] = rng.choice(sp['objs'])
+                elif sp['kind'] == 'esel' and classes[ci].param[p].objects and rng.random() < 0.5:
+                    kw[p] = rng.choice(list(classes[ci].param[p].objects))
                 else:
                     kw[p] = fresh_value(sp['kind'])
         fb = class_flags()
@@ -279,6 +295,8 @@ def run_case(idx, rng, P, rep):
         rep.count('instances')
         trace.append(('new', K.__name__, sorted(kw)))
 
+    if falsy:
+        rep.count('falsy_instance_cases')
     verify('init')
     new_instance()
     for step in range(rng.randint(5, P['maxlen'])):
@@ -291,25 +309,37 @@ def run_case(idx, rng, P, rep):
             inst = insts[ii]
             p = rng.choice([n for n in names if not specs[n].get('constant')])
             sp = specs[p]
-            if sp['kind'] == 'sel':
+            if sp['kind'] == 'sel' or (sp['kind'] == 'esel' and rng.random() < 0.3 and inst['obj'].param[p].objects):
                 # the instance may own an edited objects list (reading it is what an instance-level set does anyway)
                 v = rng.choice(list(inst['obj'].param[p].objects))
             else:
                 v = fresh_value(sp['kind'])
-            kinds.append('inst_set')
-            trace.append(('inst_set', ii, p, repr(v)))
+            route = rng.choice(['attr', 'attr', 'update'])
+            kinds.append('inst_set' if route == 'attr' else 'inst_update')
+            trace.append((kinds[-1], ii, p, repr(v)))
             fb = class_flags()
-            setattr(inst['obj'], p, v)
+            mb = meta_views(exclude=ii)
+            if route == 'attr':
+                setattr(inst['obj'], p, v)
+            else:
+                rep.count('instance_updates')
+                inst['obj'].param.update(**{p: v})
             check_flags(fb, f'inst{ii}.{p} = v')
             inst['own'][p] = v
             if sp.get('per_instance', True):
                 inst['touched'].add(p)
                 flags['copy_made'] = True
+                ma = meta_views(exclude=ii)
+                for k in mb:
+                    if mb[k] != ma.get(k):
+                        viol('instance-assignment-changed-others-metadata', f'inst{ii}.{p} = {v!r} changed {k}: {mb[k]!r} -> {ma.get(k)!r}')
         elif c < 0.42:
             ci = rng.randrange(len(classes))
             p = rng.choice(names)
             sp = specs[p]
             v = rng.choice(list(classes[ci].param[p].objects)) if sp['kind'] == 'sel' else fresh_value(sp['kind'])
+            if sp['kind'] == 'esel' and classes[ci].param[p].objects and rng.random() < 0.5:
+                v = rng.choice(list(classes[ci].param[p].objects))
             kinds.append('class_set')
             rep.count('class_sets')
             trace.append(('class_set', classes[ci].__name__, p, repr(v), 'own' if (ci, p) in own_default else 'copy-on-write'))
